@@ -453,3 +453,70 @@ func init() {
 			return obs
 		}})
 }
+
+func init() {
+	register(&Rule{ID: "SCHEMA.build-errors", Floor: 10,
+		Doc: "an error a libschema constructor raises while a schema is being BUILT (any ErrorConditionf in a registered s: builtin or its helpers that is not inside a validator closure) carries the bad-arguments condition; wrong-type and failed-constraint are raised only inside validator closures, i.e. when a value is being validated — so a handler for failed-constraint never reads a broken schema as invalid data",
+		Run: func(c *Ctx) []Obligation {
+			errc := c.LookupPkgFunc("lisp.ErrorConditionf")
+			p := c.Pkg("lisp/lisplib/libschema")
+			if errc == nil || p == nil {
+				return []Obligation{anchorMissing("SCHEMA.build-errors", "lisp.ErrorConditionf / libschema")}
+			}
+			badArgs := p.Types.Scope().Lookup("BadArgs")
+			if badArgs == nil {
+				return []Obligation{anchorMissing("SCHEMA.build-errors", "libschema.BadArgs")}
+			}
+			mkVal := map[string]bool{"newValidator": true, "newNamedValidator": true, "NewValidator": true}
+			var obs []Obligation
+			for _, u := range c.Funcs(func(pp string) bool { return rel(pp) == "lisp/lisplib/libschema" }) {
+				info := u.Pkg.TypesInfo
+				// validator closures: function literals passed to a validator constructor
+				closures := map[*ast.FuncLit]bool{}
+				ast.Inspect(u.Decl.Body, func(n ast.Node) bool {
+					if ce, ok := n.(*ast.CallExpr); ok {
+						if fn := Callee(info, ce); fn != nil && mkVal[fn.Name()] {
+							for _, a := range ce.Args {
+								if fl, ok := ast.Unparen(a).(*ast.FuncLit); ok {
+									closures[fl] = true
+								}
+							}
+						}
+					}
+					return true
+				})
+				// functions that ARE validation-time code entirely: applyConstraint and helpers called from closures only
+				if u.Obj.Name() == "applyConstraint" || u.Obj.Name() == "builtinValidate" {
+					continue
+				}
+				ord := &ordinal{}
+				var walk func(n ast.Node, inClosure bool)
+				walk = func(n ast.Node, inClosure bool) {
+					ast.Inspect(n, func(m ast.Node) bool {
+						if fl, ok := m.(*ast.FuncLit); ok && m != n {
+							walk(fl.Body, inClosure || closures[fl])
+							return false
+						}
+						ce, ok := m.(*ast.CallExpr)
+						if !ok || originOf(Callee(info, ce)) != errc || len(ce.Args) < 1 {
+							return true
+						}
+						cond := identObjOrSel(info, ce.Args[0])
+						name := types.ExprString(ce.Args[0])
+						if inClosure {
+							return true
+						}
+						construct := ord.next("construction-time error")
+						if cond == badArgs {
+							obs = append(obs, mkOb(c, "SCHEMA.build-errors", u, construct, ce, Proved, "bad-arguments", false))
+						} else {
+							obs = append(obs, mkOb(c, "SCHEMA.build-errors", u, construct, ce, Violated, "a malformed schema is refused while it is built with condition `"+name+"` instead of bad-arguments: a handler for that condition around construction and validation reads a broken schema as invalid data", true))
+						}
+						return true
+					})
+				}
+				walk(u.Decl.Body, false)
+			}
+			return obs
+		}})
+}
